@@ -11,6 +11,10 @@ following its control flow:
   tokens scan, and for `q = isVonB` — "`isVonName` says yes" — always).
 The structural facts (tokens preserved, von longest, case rule) are proved once for
 `splitWith q`, arbitrary `q`.
+
+Everything lives in `Pybtex.Names` (so that generic helper names cannot clash with other lemma
+files) except the two lemmas other properties import: `Pybtex.parseName_error` and
+`Pybtex.mkPerson_error`.
 -/
 import PybtexModel.Spec.Names
 
@@ -55,14 +59,19 @@ theorem vonLast_eq (ts : List Str) : Spec.vonLast ts = vonLastWith isLow ts := r
 
 theorem split_eq (name : Str) : Spec.split name = splitWith isLow name := rfl
 
+/-- decidable equality of results, for the concrete witnesses (`decide +kernel`) -/
+instance decEqExcept {ε α : Type} [DecidableEq ε] [DecidableEq α] : DecidableEq (Except ε α)
+  | .ok a, .ok b => if h : a = b then isTrue (by rw [h]) else isFalse (fun h' => by cases h'; exact h rfl)
+  | .error a, .error b =>
+    if h : a = b then isTrue (by rw [h]) else isFalse (fun h' => by cases h'; exact h rfl)
+  | .ok _, .error _ => isFalse (fun h => by cases h)
+  | .error _, .ok _ => isFalse (fun h => by cases h)
+
 /-- "`is_von_name` answers yes" as a total test. -/
 def isVonB (t : Str) : Bool :=
   match isVonName t with
   | .ok b => b
   | .error _ => false
-
-end Names
-open Names
 
 /-! ### `find_pos` -/
 
@@ -405,6 +414,9 @@ theorem mem_of_mem_dropLast {α} {ts : List α} {t : α} (h : t ∈ ts.dropLast)
 theorem mem_drop_sub_one {α} {ts : List α} {t : α} (h : t ∈ ts.drop (ts.length - 1)) : t ∈ ts :=
   List.mem_of_mem_drop h
 
+end Names
+open Names
+
 /-- The only error of `_parse_string` on a non-empty string is `too many nested braces`, raised
 by `is_von_name` on one of the tokens whose case is examined. -/
 theorem parseName_error {name : Str} {e : NameErr} (hne : name ≠ [])
@@ -487,6 +499,8 @@ theorem mkPerson_error {s f m p l j : Str} {e : NameErr}
       exact ⟨rfl, hne, he⟩
     · cases he
   · cases h
+
+namespace Names
 
 theorem vonLastWith_short (q : Str → Bool) (ts : List Str) (h : ts.length ≤ 1) :
     vonLastWith q ts = ([], ts) := by
@@ -804,5 +818,20 @@ theorem isVonName_eq_isLow {t : Str} (hne : t ≠ []) (hk : caseKnown t = true) 
 
 theorem caseKnown_of_scan {t : Str} (h : (scan t).isSome = true) : caseKnown t = true := by
   simp [caseKnown, h]
+
+/-! ### witnesses used by the non-vacuity examples -/
+
+/-- "Charles Louis Xavier Joseph de la Vall{\'e}e Poussin" -/
+def nameVP : Str := "Charles Louis Xavier Joseph de la Vall{\\'e}e Poussin".toList
+/-- "von Beethoven, Jr, Ludwig" -/
+def nameVB : Str := "von Beethoven, Jr, Ludwig".toList
+/-- `a{{…{}…}} B` with 101 nested braces: the first token starts with a lower-case letter and
+does not scan within the nesting limit. -/
+def tokDeepLower : Str := 'a' :: (List.replicate 101 '{' ++ List.replicate 101 '}')
+def nameDeepLower : Str := tokDeepLower ++ " B".toList
+/-- `{{…{}…}} B` with 101 nested braces: the first token has to be scanned and is too deep. -/
+def nameDeep : Str := List.replicate 101 '{' ++ List.replicate 101 '}' ++ " B".toList
+
+end Names
 
 end Pybtex
